@@ -17,4 +17,5 @@ def obligations(tier):
     obls += [stage_obl(c, ('stop',), tier) for c in stage_cfgs(tier)]
     obls += [stage_obl(c, ('stop',), tier) for c in stage_phase_cfgs(tier)]
     obls += half_band_obls(tier)
+    obls += kern_imp_set(tier)      # every tap of the half-band tables is applied, to the right sample (portable and SSE kernels)
     return obls
